@@ -35,7 +35,9 @@ MANIFEST = dict(
           "found through their stem), ASCII names, member names distinct from class names, the 5000-file bound."),
     design="6 C13",
     engines=[dict(name="E-forest", path="harness/src/eng_forest.rs + coq/extract/eng_forest.ml",
-                  kind_free_text="differential: in-process ProjectManager on a materialised workspace (build_tree / build_tree_parallel with a chosen chunk size and pool / forced schedule through the hooks build, then prepare + supertypes + subtypes on every class and member; C14: every request kind on its own thread with a deadline, two rounds) vs extracted Coq models Forest (class tree, walkers) and Locks (lock-aware analysis)")],
+                  kind_free_text="differential: in-process ProjectManager on a materialised workspace (build_tree / build_tree_parallel with a chosen chunk size and pool / forced schedule through the hooks build, then prepare + supertypes + subtypes on every class and member; C14: every request kind on its own thread with a deadline, two rounds) vs extracted Coq models Forest (class tree, walkers) and Locks (lock-aware analysis)"),
+             dict(name="E-hiertree", path="harness/src/eng_hiertree.rs + coq/extract/eng_hiertree.ml",
+                  kind_free_text="two-phase differential at tree level: documents (stem + text) -> real lexer + parser -> tree dumps; in-process ProjectManager on the materialised workspace (index, class tree as main_loop builds it, prepareTypeHierarchy at every identifier position of every file, supertypes / subtypes of every prepared item) vs extracted HierTree.prepare / supertypes_of / subtypes_of = Forest's builder and walkers on HierTree.forest_input_of_ws of the dumped trees; oracle from the texts")],
 )
 
 ASSUMPTIONS = [
@@ -332,6 +334,506 @@ def make_known(ctx):
     return known
 
 
+
+# =============================================================================================
+# tree-level tie (several documents): Model/HierTree.v, Proofs/HierTreeProofs.v, C13_tree_*
+# engine `hiertree` (two-phase): documents (stem + text) -> real lexer + parser -> tree dumps + every identifier position
+# -> real ProjectManager on the materialised workspace (index, class tree as main_loop builds it, prepare at every
+# position, supertypes / subtypes of every prepared item) vs the extracted HierTree.prepare / supertypes_of /
+# subtypes_of (Forest.v's builder and walkers on HierTree.forest_input_of_ws of the dumped trees)
+# =============================================================================================
+import glob, os
+
+HT_HEADER = re.compile(r"^\s*(class|module)\s+(\w+)\s*(?:\(\s*(\w+)\s*\))?", re.I)
+HT_METHOD = re.compile(r"^\s*(procedure|function|proc|func)\s+(\w+)", re.I)
+HT_END = re.compile(r"^\s*(endproc|endfunc)\b", re.I)
+HT_CONST = re.compile(r"^\s*(const|type)\s+(\w+)", re.I)
+HT_FIELD = re.compile(r"^(\s*)(\w+)\s*:")
+
+
+def ht_cps(t):
+    return ".".join(str(ord(c)) for c in t)
+
+
+def ht_case(files, kind):
+    return ";".join("%s~%s" % (st, ht_cps(tx)) for st, tx in files) + "@" + kind
+
+
+def ht_files(case):
+    out = []
+    for f in case.split("@")[0].split(";"):
+        if not f:
+            continue
+        st, cp = f.split("~", 1)
+        out.append((st, "".join(chr(int(x)) for x in cp.split(".")) if cp else ""))
+    return out
+
+
+def ht_describe(case):
+    try:
+        return {"kind": case.rsplit("@", 1)[1], "files": dict((st + ".god", tx) for st, tx in ht_files(case))}
+    except Exception:
+        return case
+
+
+def ht_read(stem, text):
+    """what the declarations of one text say, read off the text alone:
+       entity = first header (kind, name, parent); root = {NAME: [(name, kind letter, line, col)]} the names the root table
+       holds (headers / constants / types / fields written before the first method, every method); plain = header is the
+       first declaration, named like the stem, no second header, nothing but methods after the first method, every root
+       name declared once"""
+    entity, headers, root, decls = None, [], {}, []
+    in_m, seen_m, first_decl, in_rec, late = False, False, None, False, False
+    for l, line in enumerate(text.split("\n")):
+        code = line.split(";")[0]
+        if not code.strip():
+            continue
+        if in_rec:
+            if re.match(r"^\s*endrecord\b", code, re.I):
+                in_rec = False
+            continue
+        if not in_m and re.search(r":\s*record\s*$", code, re.I):
+            in_rec = True                      # the fields of a record type are not declarations of the document
+        m = HT_METHOD.match(code)
+        if m and not in_m:
+            in_m, seen_m = True, True
+            first_decl = first_decl or "method"
+            root.setdefault(m.group(2).upper(), []).append((m.group(2), "f", l, m.start(2), code))
+            continue
+        if HT_END.match(code):
+            in_m = False
+            continue
+        if in_m:
+            continue
+        m = HT_HEADER.match(code)
+        if m:
+            first_decl = first_decl or "header"
+            headers.append((m.group(1).lower(), m.group(2), m.group(3)))
+            if entity is None:
+                entity = (m.group(1).lower(), m.group(2), m.group(3) if m.group(1).lower() == "class" else None)
+            if not seen_m:
+                root.setdefault(m.group(2).upper(), []).append((m.group(2), "c" if m.group(1).lower() == "class" else "o", l, m.start(2), code))
+                if m.group(1).lower() == "class":
+                    root.setdefault("SELF", []).append(("self", "c", l, m.start(2), code))
+            continue
+        m = HT_CONST.match(code)
+        if m:
+            first_decl = first_decl or "member"
+            if not seen_m:
+                root.setdefault(m.group(2).upper(), []).append((m.group(2), "o", l, m.start(2), code))
+            else:
+                late = True
+            continue
+        m = HT_FIELD.match(code)
+        if m:
+            first_decl = first_decl or "member"
+            if not seen_m:
+                root.setdefault(m.group(2).upper(), []).append((m.group(2), "v", l, m.start(2), code))
+            else:
+                late = True
+            continue
+    plain = (entity is not None and first_decl == "header" and len(headers) == 1 and entity[1].upper() == stem.upper()
+             and not late and all(len(v) == 1 for v in root.values()))
+    return dict(stem=stem, entity=entity, root=root, plain=plain, text=text)
+
+
+def ht_items(s):
+    """items of one part -> list of (kind, name, stem, sel, range) | 'ERR' | '!' | '~'"""
+    if s in ("ERR", "!", "~") or s.startswith("MODEL"):
+        return s
+    if s in ("-", ""):
+        return []
+    out = []
+    for it in s.split(","):
+        k, n, st, a, b = it.split("/")
+        dec = lambda x: "" if x == "-" else "".join(chr(int(c)) for c in x.split("."))
+        out.append((k, dec(n), dec(st), tuple(int(x) for x in a.split(":")), tuple(int(x) for x in b.split(":"))))
+    return out
+
+
+def ht_parts(a):
+    i, j = a.index("S"), a.index("B")
+    return a[1:i], a[i + 1:j], a[j + 1:]
+
+
+HT_NOTES = {}
+
+
+def ht_oracle(case, obs):
+    """C13's statement on the implementation's answers alone: the relation declared by the texts decides supertypes and
+       subtypes of every prepared item; an item's selection range selects its own name in the file it points to"""
+    if obs == "" or obs.startswith("X"):
+        return None
+    if obs.startswith("PANIC") or obs == "CRASH" or "#" not in obs:
+        return "the case was not answered: %s" % obs[:100]
+    try:
+        files = ht_files(case)
+    except Exception:
+        return None
+    infos = [ht_read(st, tx) for st, tx in files]
+    bystem = dict((i["stem"].upper(), i) for i in infos)
+    parent, seen = {}, set()
+    for i in infos:
+        if i["entity"]:
+            k = i["entity"][1].upper()
+            if k in seen:
+                return None                      # two files declare one class: not a forest, the answer depends on the order
+            seen.add(k)
+            if i["entity"][2]:
+                parent[k] = i["entity"][2].upper()
+    for k in parent:
+        j, n = k, 0
+        while j in parent:
+            j, n = parent[j], n + 1
+            if n > len(parent) + 1:
+                return None                      # a cycle: not a forest
+    children = {}
+    for c, p in parent.items():
+        children.setdefault(p, []).append(c)
+    poss_s, ans_s = obs.split("#", 1)
+    poss, answers = poss_s.split("|"), ans_s.split("|")
+    lines_of = dict((i["stem"].upper(), i["text"].split("\n")) for i in infos)
+
+    def sel_ok(it):
+        k, n, st, sel, rg = it
+        ls = lines_of.get(st.upper())
+        if ls is None:
+            return "item %r points to the file %s.god that is not in the workspace" % (n, st)
+        if sel[0] != sel[2] or sel[0] >= len(ls) or ls[sel[0]][sel[1]:sel[3]] != n.split("#")[0] and n != "self":
+            return "the selection range %r of item %r does not select that name in %s.god" % (sel, n, st)
+        if not ((rg[0], rg[1]) <= (sel[0], sel[1]) and (sel[2], sel[3]) <= (rg[2], rg[3])):
+            return "selection range %r of item %r outside its range %r" % (sel, n, rg)
+        return None
+
+    def up(c, m):
+        """nearest declaration strictly above class c -> [(NAME, STEM)] | None when a document on the way is not plain"""
+        j = parent.get(c)
+        while j is not None:
+            d = bystem.get(j)
+            if d is None:
+                return []
+            if not d["plain"]:
+                return None
+            if m in d["root"]:
+                return [(m, j)]
+            j = parent.get(j)
+        return []
+
+    def down(c, m):
+        out = []
+        for ch in children.get(c, []):
+            d = bystem.get(ch)
+            if d is None:
+                continue
+            if not d["plain"]:
+                return None
+            if m in d["root"]:
+                out.append((m, ch))
+            else:
+                r = down(ch, m)
+                if r is None:
+                    return None
+                out += r
+        return out
+
+    for k, info in enumerate(infos):
+        ps = [tuple(int(x) for x in p.split(":")) for p in poss[k].split(",")] if k < len(poss) and poss[k] else []
+        an = answers[k].split(";") if k < len(answers) and answers[k] else []
+        if len(an) != len(ps):
+            return "file %s: %d positions, %d answers" % (info["stem"], len(ps), len(an))
+        # the declared names of a plain document, by position
+        expect_at = {}
+        if info["plain"]:
+            for key, v in info["root"].items():
+                (nm, kd, l, c, code) = v[0]
+                if key == "SELF" or len(re.findall(r"\b%s\b" % re.escape(nm), code, re.I)) != 1:
+                    continue
+                for col in range(c, c + len(nm) + 1):
+                    expect_at[(l, col)] = (nm, kd, c)
+        for (l, c), a in zip(ps, an):
+            where = "%s.god %d:%d" % (info["stem"], l, c)
+            if "!" in a:
+                return "%s: a request panicked: %s" % (where, a[:80])
+            pp, sp, bp = ht_parts(a)
+            prep, sup, sub = ht_items(pp), ht_items(sp), ht_items(bp)
+            if (l, c) in expect_at:
+                nm, kd, col = expect_at[(l, c)]
+                if kd == "o":
+                    if prep != []:
+                        return "%s: on the declared name of the constant / type / module %s an item is prepared: %s" % (where, nm, pp)
+                else:
+                    if not (isinstance(prep, list) and len(prep) == 1 and prep[0][0] == kd and prep[0][1] == nm
+                            and prep[0][2].upper() == info["stem"].upper() and prep[0][3] == (l, col, l, col + len(nm))):
+                        return "%s: on the declared name %s (%s) prepareTypeHierarchy gives %s" % (where, nm, kd, pp)
+            if not (isinstance(prep, list) and len(prep) == 1):
+                continue
+            it = prep[0]
+            if it[0] == "c" and it[1].upper() not in info["root"]:
+                # a reference to a class declared in ANOTHER file (a type annotation, an inherited name): the code makes the
+                # CLASS item with the uri of the requesting document and the ranges of the declaring one (reported as a
+                # finding; C13's text speaks of the relation, which is decided by the item's name alone)
+                HT_NOTES["class_item_of_other_file_with_requesting_uri"] = HT_NOTES.get("class_item_of_other_file_with_requesting_uri", 0) + 1
+            else:
+                r = sel_ok(it)
+                if r:
+                    return "%s: prepared %s" % (where, r)
+            for part, name in ((sup, "supertypes"), (sub, "subtypes")):
+                if not isinstance(part, list):
+                    d = bystem.get(it[2].upper())
+                    if d is not None and d["plain"]:
+                        return "%s: %s of %s not answered: %s" % (where, name, it[1], part)
+                    continue
+                for x in part:
+                    r = sel_ok(x)
+                    if r:
+                        return "%s: %s: %s" % (where, name, r)
+            if not (isinstance(sup, list) and isinstance(sub, list)):
+                continue
+            gs = sorted((x[1].upper(), x[2].upper()) for x in sup)
+            gb = sorted((x[1].upper(), x[2].upper()) for x in sub)
+            if it[0] == "c":
+                n = it[1].upper()
+                if n == "SELF":
+                    continue
+                es = [parent[n]] if n in parent else []
+                if [x[1] for x in gs if x[1] not in es] or len(gs) > 1:
+                    return "%s: supertypes of class %s are %s, the headers declare %s" % (where, it[1], gs, es)
+                for key in es:
+                    d = bystem.get(key)
+                    if d is not None and d["plain"] and gs != [(key, key)]:
+                        return "%s: supertypes of class %s are %s, the header declares %s (which has a file)" % (where, it[1], gs, key)
+                    if d is None and gs:
+                        return "%s: supertypes of class %s are %s, its parent %s has no file" % (where, it[1], gs, key)
+                eb = children.get(n, [])
+                if [x for x in gb if x[1] not in eb] or len(set(gb)) != len(gb):
+                    return "%s: subtypes of class %s are %s, the classes declaring it as parent are %s" % (where, it[1], gb, sorted(eb))
+                for key in eb:
+                    d = bystem.get(key)
+                    if d is not None and d["plain"] and (key, key) not in gb:
+                        return "%s: subtypes of class %s are %s: %s declares it as parent and is missing" % (where, it[1], gb, key)
+            else:
+                d = bystem.get(it[2].upper())
+                if d is None or not d["plain"]:
+                    continue
+                c0, m = d["entity"][1].upper(), it[1].upper()
+                eu, ed = up(c0, m), down(c0, m)
+                if eu is not None and gs != sorted(eu):
+                    return "%s: supertypes of member %s of %s are %s, the nearest declaration above is %s" % (where, it[1], d["entity"][1], gs, eu)
+                if ed is not None and gb != sorted(ed):
+                    return "%s: subtypes of member %s of %s are %s, the nearest declarations below are %s" % (where, it[1], d["entity"][1], gb, sorted(ed))
+    return None
+
+
+def ht_texts(fds):
+    return [(f.stem, f.render()[0]) for f in fds]
+
+
+def ht_mutate(rng, files, how):
+    """documents the forest generators never make: header not the first declaration, module, no class, second header,
+       a constant / type named like a member, stem unlike the class name"""
+    files = [list(f) for f in files]
+    k = rng.randrange(len(files))
+    st, tx = files[k]
+    ls = tx.split("\n")
+    hdr = [i for i, l in enumerate(ls) if HT_HEADER.match(l)]
+    meth = [i for i, l in enumerate(ls) if HT_METHOD.match(l)]
+    if how == "late_header" and hdr:
+        h = ls.pop(hdr[0])
+        at = (meth[0] - 1) if meth else len(ls) - 1
+        ls.insert(max(at, 0), h)                       # after the fields, in front of the first method
+    elif how == "header_after_method" and hdr and meth:
+        h = ls.pop(hdr[0])
+        ends = [i for i, l in enumerate(ls) if HT_END.match(l)]
+        ls.insert(ends[0] + 1, h)
+    elif how == "const_first" and hdr:
+        ls.insert(0, "const cFirst = 1")
+    elif how == "module" and hdr:
+        m = HT_HEADER.match(ls[hdr[0]])
+        ls[hdr[0]] = "module %s" % m.group(2)
+    elif how == "two_headers" and hdr:
+        ls.insert(hdr[0] + 1, "class aSecondHeader (%s)" % rng.choice(NAMES))
+    elif how == "const_member" and hdr:
+        nm = rng.choice(MEMBERS)[0]
+        ls.insert(hdr[0] + 1, rng.choice(["const %s = 1", "type %s : int4"]) % fc.recase(nm, rng))
+    elif how == "stem_mismatch":
+        st = st + "X"
+    elif how == "body":
+        # references inside a method body: own members, inherited members, self, a dot
+        if meth:
+            refs = ["   Fld = p1", "   self.Foo(p1)", "   Foo(1)", "   p1 = Calc(2) + Fld", "   self.Fld = 1", "   zz = self"]
+            ls.insert(meth[0] + 1, rng.choice(refs))
+            ls.insert(meth[0] + 1, rng.choice(refs))
+    elif how == "dup_member" and hdr:
+        nm = rng.choice(MEMBERS)[0]
+        ls.insert(hdr[0] + 1, "%s : int4" % fc.recase(nm, rng))
+        ls.insert(hdr[0] + 1, "%s : cstring" % fc.recase(nm, rng))
+    elif how == "member_named_class" and hdr:
+        ls.insert(hdr[0] + 1, "%s : int4" % rng.choice(NAMES + ["self", "SELF", st]))
+    elif how == "decl_after_method" and meth:
+        ls.append(rng.choice(["Late : int4", "const Foo = 2", "Fld : int4", "type Calc : int4"]))
+    elif how == "no_class":
+        files.append(["aNoClass%d" % rng.randrange(9), "; no class in this file\nFld : int4\n\nproc Foo(p1 : int4)\n   ; body\nendproc\n"])
+    elif how == "empty":
+        files.append(["aEmpty", ""])
+    files[k] = [st, "\n".join(ls)]
+    return [tuple(f) for f in files]
+
+
+HT_MUTS = ["late_header", "header_after_method", "const_first", "module", "two_headers", "const_member", "stem_mismatch",
+           "body", "no_class", "empty", "dup_member", "member_named_class", "decl_after_method"]
+
+
+def ht_cases(ctx):
+    rng = random.Random(ctx.seed * 7919 + 13)
+    cases, hist = [], {}
+
+    def add(kind, files):
+        # stems pairwise distinct ignoring case (class_uri_map keeps one of two such files, which one depends on read_dir)
+        if len(set(s.upper() for s, _ in files)) != len(files):
+            return
+        cases.append(ht_case(files, kind))
+        hist[kind] = hist.get(kind, 0) + 1
+
+    scale = 1 if ctx.quick else 8
+    base = []
+    for n in (1, 2, 3):
+        fs = list(forests(n))
+        for ps in (fs if len(fs) <= 30 else rng.sample(fs, 30 * scale if 30 * scale < len(fs) else len(fs))):
+            w = make_ws(ps, rng)
+            base.append(w)
+            add("forest_%d" % n, ht_texts(w))
+    four = list(forests(4))
+    for ps in rng.sample(four, 60 * scale):
+        w = make_ws(ps, rng)
+        base.append(w)
+        add("forest_4", ht_texts(w))
+    for _ in range(60 * scale):
+        n = rng.choice([5, 6])
+        while True:
+            ps = tuple(rng.choice([None, None, "x"] + list(range(n))) for _ in range(n))
+            if list(forests_check([ps])):
+                break
+        w = make_ws(ps, rng)
+        base.append(w)
+        add("forest_5_6", ht_texts(w))
+    for _ in range(240 * scale):
+        w = rng.choice(base)
+        how = rng.choice(HT_MUTS)
+        files = ht_mutate(rng, ht_texts(w), how)
+        r = rng.random()
+        if r < 0.3:
+            files = ht_mutate(rng, files, "body")
+        elif r < 0.45:
+            files = ht_mutate(rng, files, rng.choice(HT_MUTS))
+        add(how, files)
+    # the repository's own test workspace: the top-level files, and those together with TypeHierarchyTest/
+    top = sorted(glob.glob("/repo/test/workspace/*.god"))
+    sub = sorted(glob.glob("/repo/test/workspace/TypeHierarchyTest/*.god"))
+    rd = lambda f: (os.path.splitext(os.path.basename(f))[0], open(f, "rb").read().decode("utf-8", errors="replace"))
+    if top:
+        add("repo_workspace", [rd(f) for f in top])
+        add("repo_workspace", [rd(f) for f in top + sub])
+        add("repo_workspace", [rd(f) for f in reversed(top)])
+    if sub:
+        add("repo_workspace", [rd(f) for f in sub])
+    return cases, hist
+
+
+def ht_split(out):
+    # the model receives the whole line; the observation = "<positions>#<answers>" (the model echoes the positions)
+    return (out, out.split("@", 1)[1]) if "@" in out and "#" in out else (out, out)
+
+
+def ht_canon(x):
+    return x.replace("?", "")
+
+
+def ht_shrinker(case):
+    try:
+        files = ht_files(case)
+        kind = case.rsplit("@", 1)[1]
+    except Exception:
+        return
+    for i in range(len(files)):
+        if len(files) > 1:
+            yield ht_case(files[:i] + files[i + 1:], kind)
+    for i, (st, tx) in enumerate(files):
+        ls = tx.split("\n")
+        for j in range(len(ls)):
+            if ls[j].strip() and not HT_HEADER.match(ls[j]):
+                yield ht_case(files[:i] + [(st, "\n".join(ls[:j] + ls[j + 1:]))] + files[i + 1:], kind)
+
+
+def ht_nontrivial(case):
+    try:
+        infos = [ht_read(st, tx) for st, tx in ht_files(case)]
+    except Exception:
+        return False
+    return len([i for i in infos if i["entity"] and i["entity"][2]]) >= 2
+
+
+def hiertree_stage(ctx):
+    cases, hist = ht_cases(ctx)
+    HT_NOTES.clear()
+    cov = diff.differential(ctx, "hiertree", cases, split=ht_split, oracle=ht_oracle, canon=ht_canon,
+                            shrinker=ht_shrinker, nontrivial=ht_nontrivial, describe=ht_describe)
+    # how much the model answers itself (not Outside), how many items are prepared and walked
+    hb = diff.Engines.harness()
+    raw = core.run_lines(hb, "hiertree", cases)
+    mod = core.run_lines(diff.Engines.model(), "hiertree", raw)
+    st = {"positions": 0, "prepare_outside": 0, "prepared_class": 0, "prepared_member": 0, "prepare_err": 0,
+          "walks": 0, "walks_outside": 0, "walks_nonempty": 0, "documents": 0, "plain_documents": 0}
+    for c, m in zip(cases, mod):
+        try:
+            infos = [ht_read(s_, t_) for s_, t_ in ht_files(c)]
+            st["documents"] += len(infos)
+            st["plain_documents"] += len([i for i in infos if i["plain"]])
+        except Exception:
+            pass
+        if "#" not in m:
+            continue
+        for fa in m.split("#", 1)[1].split("|"):
+            for a in (fa.split(";") if fa else []):
+                pp, sp, bp = ht_parts(a)
+                st["positions"] += 1
+                if pp.startswith("?"):
+                    st["prepare_outside"] += 1
+                if pp.lstrip("?") == "ERR":
+                    st["prepare_err"] += 1
+                if pp.lstrip("?").startswith("c/"):
+                    st["prepared_class"] += 1
+                if pp.lstrip("?")[:2] in ("f/", "v/"):
+                    st["prepared_member"] += 1
+                for w in (sp, bp):
+                    if w != "~":
+                        st["walks"] += 1
+                        if w.startswith("?"):
+                            st["walks_outside"] += 1
+                        if w.lstrip("?") not in ("-", "ERR"):
+                            st["walks_nonempty"] += 1
+    cov["workspaces"] = len(cases)
+    cov["input_histogram"] = hist
+    cov["requests"] = st
+    cov["notes"] = dict(HT_NOTES)
+    cov["rule"] = ("workspaces of c13's own generators (every forest on 1-2 classes, samples of those on 3-6; parent references, "
+                   "stems and member names re-cased, parents without a file, members Foo / Fld / Calc overridden at random) as "
+                   "documents (stem + text); the same with one document made irregular (header after the fields / after a method, a "
+                   "constant in front of the header, module, second header, a constant or type named like a member, stem unlike "
+                   "the class name, references in a method body, a file without class, an empty file); /repo/test/workspace (top "
+                   "level, with TypeHierarchyTest/, reversed). Per workspace: every tree dumped, the class tree built as main_loop "
+                   "does, prepareTypeHierarchy at start / middle / end of EVERY identifier token of every file, then supertypes and "
+                   "subtypes of every prepared item, vs HierTree.prepare / supertypes_of / subtypes_of on the dumps (items = kind, "
+                   "name, stem of the uri, selection range, range; supertypes / subtypes sorted). Parts the model classifies as "
+                   "Outside (a look-up that leaves the document, the right operand of a dot) are skipped and counted. Oracle "
+                   "(implementation alone): the headers and declarations read off the TEXTS decide supertypes / subtypes of every "
+                   "prepared class and member item (exactly, where the documents concerned are plain: header first, named like the "
+                   "stem, names declared once; as an upper bound otherwise), on a declared name of a plain document the item of "
+                   "that declaration is prepared, every item's selection range selects its name in the file of its uri and lies "
+                   "inside its range")
+    cov["samples"] = [ht_describe(cases[0]), ht_describe(cases[len(cases) // 2])]
+    return cov
+
+
 def correspondence(ctx, broken_obligations=()):
     plain, hooks, wsid, nws = gen(ctx)
     known = make_known(ctx)
@@ -416,11 +918,34 @@ def correspondence(ctx, broken_obligations=()):
             v.coverage = cov
             raise v
     cov["tree_build_vs_change_schedules"] = len(outs)
+    try:
+        cov["hiertree"] = hiertree_stage(ctx)
+    except core.Violation as v:
+        cv = getattr(v, "coverage", {}) or {}
+        cov["hiertree"] = cv
+        v.coverage = cov
+        raise
     return cov
 
 
 def replay(ctx, rep):
     case = rep["case"]
+    if rep.get("engine") == "hiertree":
+        out = core.run_lines(diff.Engines.harness(), "hiertree", [case], shards=1)[0]
+        obs = ht_split(out)[1]
+        mod = core.run_lines(diff.Engines.model(), "hiertree", [out], shards=1)[0]
+        r = ht_oracle(case, obs)
+        print("case:", ht_describe(case))
+        print("implementation:", obs)
+        print("model:", mod)
+        print("oracle:", r or "property holds on this case")
+        if r:
+            print("VIOLATION property=C13 replay=%s" % rep.get("how_to_rerun", "").split()[-1])
+            return 1
+        if ht_canon(mod) != obs:
+            print("model and implementation disagree")
+            return 1
+        return 0
     if rep.get("engine") == "E-sched":
         o = core.run_lines(diff.Engines.harness(hooks=True), "sched", [case], shards=1)[0]
         print("forced schedule:", case, "->", o)
